@@ -196,16 +196,19 @@ func (c *Channel) Close() error {
 }
 
 func (c *Channel) close() error {
+	util.VerifYield("chan.close.enter")
 	c.l.Info("channel closing...")
 
 	// note: c.Errs is deliberately *not* closed, the read loop may be about to send on it.
 
 	ch := make(chan struct{})
 
+	util.VerifYield("chan.close.before-exited-check")
 	if !c.readLoopExited.Load() {
 		go func() {
 			defer close(ch)
 
+			util.VerifYield("chan.close.helper-before-done-send")
 			select {
 			case c.done <- struct{}{}:
 			case <-c.exited:
@@ -220,6 +223,7 @@ func (c *Channel) close() error {
 	case <-ch:
 		c.l.Debug("closing underlying transport...")
 
+		util.VerifYield("chan.close.before-transport-close")
 		return c.t.Close(false)
 	case <-time.After(c.ReadDelay * (c.ReadDelay / readDelayDivisor)): //nolint:durationcheck
 		// channel is stuck in a blocking read (almost always the case for netconf!), force close
@@ -227,6 +231,7 @@ func (c *Channel) close() error {
 		// "nicely" exit -- with defaults this ends up being 62.5ms.
 		c.l.Debug("force closing underlying transport...")
 
+		util.VerifYield("chan.close.before-transport-close")
 		return c.t.Close(true)
 	}
 }
